@@ -24,7 +24,7 @@ ASSUMPTIONS = [
     "known finding K1 (solve() stops at a stationary cost on non-forest graphs) is attributed only by its full signature",
     "termination is approximated by a watchdog plus a deterministic executed-line budget",
 ]
-MIN_FRACTIONS = {"dag": 0.6, "cyclic": 0.1, "shape:forest": 0.05, "nontrivial": 0.5, "n>=10": 0.2, "non-unit-weights": 0.15, "non-unit-scales": 0.15, "has-duplicates": 0.1, "has-redundant-path": 0.1, "certified": 0.6}
+MIN_FRACTIONS = {"dag": 0.6, "cyclic": 0.1, "shape:forest": 0.05, "path:split-between (violated constraint inside one block)": 0.02, "path:block-split (negative multiplier)": 0.03, "nontrivial": 0.5, "n>=10": 0.2, "non-unit-weights": 0.15, "non-unit-scales": 0.15, "has-duplicates": 0.1, "has-redundant-path": 0.1, "certified": 0.6}
 TOL_ABS = 1e-3
 TOL_REL = 1e-9
 
@@ -133,9 +133,43 @@ def strategy(tier):
 
 # ------------------------------------------------------------------ solver under test
 
+PATHS = {}
+
+
+def _count_paths(vpsc):
+    """classification only: count how often the rarely taken solver paths run (the wrappers change nothing)"""
+    undo = []
+    for cls_name, meth, key in (("Block", "splitBetween", "split-between"), ("Block", "split", "block-split")):
+        cls = getattr(vpsc, cls_name, None)
+        raw = cls.__dict__.get(meth) if cls is not None else None
+        fn = getattr(raw, "__func__", raw)
+        if fn is None or not callable(fn):
+            continue
+
+        def make(fn, key, is_cm):
+            def w(*a, **k):
+                PATHS[key] = PATHS.get(key, 0) + 1
+                return fn(*a, **k)
+            return classmethod(w) if is_cm else w
+
+        setattr(cls, meth, make(fn, key, isinstance(raw, classmethod)))
+        undo.append((cls, meth, raw))
+    return undo
+
+
 def solve(spec, more=0):
     from labella import vpsc
 
+    PATHS.clear()
+    undo = _count_paths(vpsc)
+    try:
+        return _solve(vpsc, spec, more)
+    finally:
+        for cls, meth, raw in undo:
+            setattr(cls, meth, raw)
+
+
+def _solve(vpsc, spec, more):
     vs = [vpsc.Variable(d, w, s) for d, w, s in zip(spec["des"], spec["ws"], spec["ss"])]
     cs = [vpsc.Constraint(vs[i], vs[j], g) for i, j, g in spec["cons"]]
     sol = vpsc.Solver(vs, cs)
@@ -349,6 +383,10 @@ def check(spec, ctx):
         ctx.event("nontrivial")
 
     x, cost, uns, _ = guarded(lambda: lib_call(solve, spec), ctx)
+    if PATHS.get("split-between"):
+        ctx.event("path:split-between (violated constraint inside one block)")
+    if PATHS.get("block-split"):
+        ctx.event("path:block-split (negative multiplier)")
     if not all(isinstance(v, (int, float)) and math.isfinite(v) for v in x):
         raise Violation("non-finite-position", repr(x)[:200])
     if not acyclic:
